@@ -101,7 +101,8 @@ json stress_plan(Rng &r, int tier, uint64_t idx)
 	std::string shape_name;
 	bool want_path = false;
 	json fs = json::array({{{"path", "/c02/dir"}, {"kind", "dir"}}, fs_file("/c02/empty", ""), fs_file("/c02/self.conf", "include(\"/c02/self.conf\")\n"),
-			       {{"path", "/c02/noperm"}, {"kind", "noperm"}}, {{"path", "/c02"}, {"kind", "dir"}}, {{"path", "/"}, {"kind", "dir"}}});
+			       {{"path", "/c02/noperm"}, {"kind", "noperm"}}, {{"path", "/c02"}, {"kind", "dir"}}, {{"path", "/"}, {"kind", "dir"}},
+			       {{"path", "/c02/dirlink"}, {"kind", "link"}, {"to", "/c02/dir"}}, {{"path", "/c02/looplink"}, {"kind", "link"}, {"to", "/c02/looplink"}}});
 	std::string route = "buf";
 	switch (shape) {
 	case 0:
@@ -166,8 +167,8 @@ json stress_plan(Rng &r, int tier, uint64_t idx)
 	case 9: {
 		shape_name = "special_include_target";
 		// (the account database below makes "~", "~/" and "~root" name a directory)
-		static const char *targets[] = {"/c02/dir", "/c02/empty", "/c02/self.conf", "/c02/noperm", "/c02/missing", "", "~nouser/x", "/", "~", "~/", "~root", "~root/", "~/empty", "empty", "dir", "self.conf"};
-		t = std::string("alpha = 2\ninclude(\"") + targets[r.below(16)] + "\")\nalpha = 3\n";
+		static const char *targets[] = {"/c02/dir", "/c02/empty", "/c02/self.conf", "/c02/noperm", "/c02/missing", "", "~nouser/x", "/", "~", "~/", "~root", "~root/", "~/empty", "empty", "dir", "self.conf", "/c02/dirlink", "dirlink", "/c02/looplink"};
+		t = std::string("alpha = 2\ninclude(\"") + targets[r.below(19)] + "\")\nalpha = 3\n";
 		want_path = r.chance(1, 2); // relative names: through a search path whose directory is written with or without a trailing slash
 		break;
 	}
@@ -219,8 +220,8 @@ json stress_plan(Rng &r, int tier, uint64_t idx)
 		steps.push_back(a);
 	}
 	if (route == "file") {
-		static const char *paths[] = {"/c02/dir", "/c02/empty", "/c02/missing", "/c02/noperm", "", "~", "~nouser", "/"};
-		std::string path = paths[r.below(8)];
+		static const char *paths[] = {"/c02/dir", "/c02/empty", "/c02/missing", "/c02/noperm", "", "~", "~nouser", "/", "/c02/dirlink", "/c02/looplink", "~/dirlink"};
+		std::string path = paths[r.below(11)];
 		if (r.chance(1, 3)) {
 			json a = step(0, "addpath", 0);
 			a["dir"] = r.chance(1, 2) ? "/c02" : "/c02/";
